@@ -508,6 +508,7 @@ type ipamK8s struct {
 	c     client.Client
 	w     *vt.Writer
 	rdma  bool
+	existFail bool // the uncached "does this pod exist" read fails (transient API failure)
 	cache map[string]*daemon.PodInfo // what the real facade keeps in pod.db: the last copy seen of every pod
 }
 
@@ -527,7 +528,7 @@ func (k *ipamK8s) GetPod(ctx context.Context, namespace, name string, cache bool
 	pi := &daemon.PodInfo{Name: name, Namespace: namespace, PodNetworkType: daemon.PodNetworkTypeENIMultiIP, PodUID: string(pod.UID),
 		SandboxExited: pod.Status.Phase == corev1.PodSucceeded || pod.Status.Phase == corev1.PodFailed}
 	if k.rdma {
-		for _, c := range pod.Spec.Containers {
+		for _, c := range append(append([]corev1.Container{}, pod.Spec.InitContainers...), pod.Spec.Containers...) {
 			if q, ok := c.Resources.Limits[corev1.ResourceName(deviceplugin.ERDMAResName)]; ok && !q.IsZero() {
 				pi.ERdma = true
 			}
@@ -542,6 +543,10 @@ func (k *ipamK8s) PatchPodIPInfo(info *daemon.PodInfo, ips string) error { retur
 func (k *ipamK8s) GetClient() client.Client { return k.c }
 func (k *ipamK8s) NodeName() string         { return ipamNodeName }
 func (k *ipamK8s) PodExist(namespace, name string) (bool, error) {
+	if k.existFail {
+		k.w.Emit(vt.M{"ev": "pod_exist_err", "p": ipamPodNum(namespace + "/" + name)})
+		return false, fmt.Errorf("verif: injected API read failure")
+	}
 	pod := &corev1.Pod{}
 	err := k.c.Get(context.Background(), client.ObjectKey{Namespace: namespace, Name: name}, pod)
 	res := err == nil && pod.Spec.NodeName == ipamNodeName
@@ -582,6 +587,7 @@ type ipamPod struct {
 	live   bool
 	rdma   bool
 	sbUp   bool
+	lay    int // container layout of an RDMA pod
 	cid    string // container id of the sandbox that is up
 	e, a4, a6 int
 }
@@ -845,7 +851,22 @@ func (s *ipamSys) createPodObj(p int, pd *ipamPod, report bool) {
 	pod := &corev1.Pod{ObjectMeta: metav1.ObjectMeta{Namespace: "ns", Name: ipamPodName(p), UID: k8stypes.UID(ipamUID(pd.uid))},
 		Spec: corev1.PodSpec{NodeName: ipamNodeName, Containers: []corev1.Container{{Name: "c", Image: "i"}}}}
 	if pd.rdma {
-		pod.Spec.Containers[0].Resources.Limits = corev1.ResourceList{corev1.ResourceName(deviceplugin.ERDMAResName): resource.MustParse("1")}
+		// where the aliyun/erdma limit sits: only container / first of two (a sidecar follows) / last of two / an init container
+		lim := corev1.ResourceList{corev1.ResourceName(deviceplugin.ERDMAResName): resource.MustParse("1")}
+		side := corev1.Container{Name: "sidecar", Image: "i"}
+		switch pd.lay % 4 {
+		case 0:
+			pod.Spec.Containers[0].Resources.Limits = lim
+		case 1:
+			pod.Spec.Containers[0].Resources.Limits = lim
+			pod.Spec.Containers = append(pod.Spec.Containers, side)
+		case 2:
+			pod.Spec.Containers = append([]corev1.Container{side}, pod.Spec.Containers...)
+			pod.Spec.Containers[1].Resources.Limits = lim
+		case 3:
+			pod.Spec.InitContainers = []corev1.Container{{Name: "init", Image: "i", Resources: corev1.ResourceRequirements{Limits: lim}}}
+			pod.Spec.Containers = append(pod.Spec.Containers, side)
+		}
 	}
 	pod.Status.Phase = corev1.PodPending
 	if report {
@@ -1076,7 +1097,10 @@ func (s *ipamSys) step(st vt.M) {
 		if s.pods[p] != nil {
 			return
 		}
-		pd := &ipamPod{uid: s.nextUID, live: true, rdma: vt.Bool(st["rdma"]) && s.conf.rdma > 0}
+		pd := &ipamPod{uid: s.nextUID, live: true, rdma: vt.Bool(st["rdma"]) && s.conf.rdma > 0, lay: s.nextUID}
+		if _, ok := st["lay"]; ok {
+			pd.lay = vt.Int(st["lay"])
+		}
 		s.nextUID++
 		s.pods[p] = pd
 		s.createPodObj(p, pd, false)
@@ -1161,7 +1185,9 @@ func (s *ipamSys) step(st vt.M) {
 	case "daemon_gc":
 		s.age()
 		s.rtBy = "daemon"
+		s.k8s.existFail = vt.Bool(st["exist_fail"])
 		err := s.svc.CleanRuntimeNode(ctx)
+		s.k8s.existFail = false
 		s.w.Emit(vt.M{"ev": "daemon_gc", "ok": err == nil})
 	case "reconcile":
 		s.reconcile(vt.Str(st["write"]), vt.Bool(st["full"]))
@@ -1384,7 +1410,7 @@ func ipamRandomScenario(k int, env string, skip map[string]bool) []vt.M {
 		case x < 16:
 			sc = append(sc, vt.M{"a": "sync_deleted"})
 		case x < 17:
-			sc = append(sc, vt.M{"a": "daemon_gc"})
+			sc = append(sc, vt.M{"a": "daemon_gc", "exist_fail": rng.Intn(3) == 0})
 		case x < 18:
 			sc = append(sc, vt.M{"a": "plan", "outcomes": []any{ipamFaults[rng.Intn(len(ipamFaults))]}})
 		case x < 19 && env == "all":
@@ -1416,7 +1442,8 @@ func ipamRandomScenario(k int, env string, skip map[string]bool) []vt.M {
 			sc = append(sc, vt.M{"a": "pod_create", "p": p})
 		}
 		sc = append(sc, rec(), rec(), vt.M{"a": "cni_add", "p": 1}, vt.M{"a": "cni_add", "p": 2}, vt.M{"a": "sync_deleted"},
-			vt.M{"a": "pod_delete", "p": 1, "forced": true}, vt.M{"a": "daemon_gc"}, rec(), vt.M{"a": "pod_delete", "p": 2}, vt.M{"a": "flush"},
+			vt.M{"a": "daemon_gc", "exist_fail": rng.Intn(2) == 0},
+			vt.M{"a": "pod_delete", "p": 1, "forced": true}, vt.M{"a": "daemon_gc", "exist_fail": rng.Intn(3) == 0}, rec(), vt.M{"a": "pod_delete", "p": 2}, vt.M{"a": "flush"},
 			vt.M{"a": "pod_delete", "p": 3}, vt.M{"a": "daemon_gc"}, rec(), vt.M{"a": "pod_create", "p": 4}, rec(), vt.M{"a": "cni_del", "p": 1}, vt.M{"a": "flush"}, rec())
 	case "resandbox":
 		// kubelet replaces a pod's sandbox (same pod UID): DEL, report, ADD again; later the pod is deleted
@@ -1470,6 +1497,22 @@ func ipamRandomScenario(k int, env string, skip map[string]bool) []vt.M {
 	case "resync":
 		// a status-update conflict right after a cloud change (the new interface is attached but not in the record), then
 		// the re-sync of the next round(s) fails at listing the interfaces; demand is still there
+		if k%2 == 0 {
+			// assign path: the only interface has room; the pass that assigns addresses to it hits the conflict (the controller
+			// has just been restarted: nothing else marked its memory); in dual stack the IPv6 half of that pass fails
+			cf["sec"], cf["trunk"], cf["rdma"], cf["pre"], cf["preIPs"], cf["init"], cf["min"], cf["max"] = 1, false, 0, 1, 1, "empty", 0, 1+rng.Intn(2)
+			cf["cap4"], cf["cap6"] = 3, 3
+			if rng.Intn(3) != 0 {
+				cf["v4"], cf["v6"] = true, false
+			}
+			sc = append(sc, vt.M{"a": "pod_create", "p": 1}, vt.M{"a": "reconcile"}, vt.M{"a": "reconcile"}, vt.M{"a": "restart"},
+				vt.M{"a": "pod_create", "p": 2}, vt.M{"a": "pod_create", "p": 3})
+			if vt.Bool(cf["v4"]) && vt.Bool(cf["v6"]) {
+				sc = append(sc, vt.M{"a": "plan", "outcomes": []any{"ok", "fb"}})
+			}
+			sc = append(sc, vt.M{"a": "reconcile", "write": []string{"conflict", "conflict", "error"}[rng.Intn(3)]}, vt.M{"a": "reconcile"}, vt.M{"a": "reconcile"}, rec())
+			break
+		}
 		cf["sec"], cf["trunk"], cf["rdma"], cf["pre"], cf["preIPs"], cf["init"], cf["min"], cf["max"] = 2, false, 0, 1, 2, "empty", 0, 1+rng.Intn(2)
 		cf["cap4"], cf["cap6"] = 2, 2
 		sc = append(sc, vt.M{"a": "pod_create", "p": 1}, vt.M{"a": "pod_create", "p": 2}, vt.M{"a": "reconcile"}, vt.M{"a": "reconcile"},
@@ -1550,10 +1593,10 @@ func ipamRandomScenario(k int, env string, skip map[string]bool) []vt.M {
 		}
 		if rng.Intn(2) == 0 {
 			cf["pre"], cf["preIPs"], cf["init"] = 1, 2, "empty"
-			sc = append(sc, vt.M{"a": "pod_create", "p": 1, "rdma": true}, vt.M{"a": "reconcile"}, vt.M{"a": "pod_create", "p": 2}, rec(), rec())
+			sc = append(sc, vt.M{"a": "pod_create", "p": 1, "rdma": true, "lay": rng.Intn(4)}, vt.M{"a": "reconcile"}, vt.M{"a": "pod_create", "p": 2}, rec(), rec())
 		} else {
 			cf["pre"], cf["init"], cf["min"], cf["max"] = 0, "empty", 0, 3
-			sc = append(sc, vt.M{"a": "pod_create", "p": 1, "rdma": true}, vt.M{"a": "pod_create", "p": 2, "rdma": true}, vt.M{"a": "reconcile"}, vt.M{"a": "reconcile"},
+			sc = append(sc, vt.M{"a": "pod_create", "p": 1, "rdma": true, "lay": rng.Intn(4)}, vt.M{"a": "pod_create", "p": 2, "rdma": true, "lay": 1 + rng.Intn(3)}, vt.M{"a": "reconcile"}, vt.M{"a": "reconcile"},
 				vt.M{"a": "cni_add", "p": 1}, vt.M{"a": "pod_delete", "p": 1}, vt.M{"a": "flush"}, vt.M{"a": "reconcile"}, vt.M{"a": "pod_create", "p": 3}, vt.M{"a": "pod_create", "p": 4}, vt.M{"a": "reconcile"}, rec())
 		}
 	}
